@@ -159,6 +159,9 @@ func writeTag(w io.Writer, tag *Tag, timestampDelta uint32) error {
 
 	// timestamp
 	timestamp := tag.Timestamp - timestampDelta
+	if timestamp > 0xffffffff-60000 { // 比首个 tag 稍旧的 tag（如 GOP 之后到达的较早音频）不回绕成巨大时间戳
+		timestamp = 0
+	}
 	binary.BigEndian.PutUint32(tagHeader[offset:], (timestamp<<8)|(timestamp>>24))
 	offset += 4
 
